@@ -686,6 +686,13 @@ class Result:
         }
 
 
+def _unparse(n: ast.AST) -> str:
+    try:
+        return ast.unparse(n)
+    except Exception:      # noqa: BLE001
+        return ''
+
+
 def verify(
     prog: Program, qual: str, timeout_ms: int = 10000,
     max_paths: int = 3000, label: str | None = None,
@@ -716,6 +723,21 @@ def verify(
                 if fm2 is None:
                     raise Unsupported('method %s not found' % qual)
                 defcls, node = fm2
+        # a ghost assertion keyed by a statement that is no longer in the
+        # function cannot be discharged: an undecided obligation, not a pass
+        for key in (c.hints or {}):
+            if not any(
+                isinstance(sn, ast.stmt) and _unparse(sn).startswith(key)
+                for sn in ast.walk(node)
+            ):
+                ob = Obligation(
+                    '%s:hint-anchor:%s' % (label or qual, key[:60]),
+                    'hint', label or qual, getattr(node, 'lineno', 0),
+                    'the statement %r this ghost assertion is attached to is '
+                    'not in the function' % key)
+                ob.status = 'unknown'
+                ob.model = 'no statement of the function starts with %r' % key
+                ex.obligations[ob.name] = ob
         stack: list[list[int]] = [[]]
         seen_paths = 0
         while stack:
@@ -860,6 +882,9 @@ def run_one(
         except _PathEnd as e:
             return 'end:' + e.why if e.why != 'infeasible' else 'infeasible'
         run.frames[:] = [fr]
+        run.final_locs = {
+            k: run.unalias(v) for k, v in fr.locs.items()
+        }
         if c.returns and c.returns != 'None':
             try:
                 run.result = ex.coerce(
